@@ -32,11 +32,25 @@ def cases(tier, seed, args):
         out.append(dict(t='fp', kind=kind, K=4, D=int(rng.integers(6, 9)), F=1 + (i % 2), iterations=[2, 5, 3, 20][i % 4], blur=float(rng.uniform(0.3, 0.45)),
                         noise=float(10.0 ** rng.uniform(-4, -2)), seed=int(rng.integers(1 << 30)), gains=False, gainmode='mixed',
                         E=int(rng.integers(6, 9)), sizes=[10, 40, 40, 40]))
+    # heavily blurred start in many dimensions after the process has seen a small feature dimension
+    for i in range(7 if q else 42):
+        kind = ml.KINDS[i % 7] if i >= 3 else 'cwmm'
+        # the Watson mixture is additionally started from a blur that only just keeps the true class the largest
+        out.append(dict(t='fp', kind=kind, K=3, D=8 if kind != 'cbmm' else 3, F=1, iterations=[1, 2, 5, 20][i % 4] if kind != 'cbmm' else 1,
+                        blur=float([0.9, 0.8, 0.85][i % 3]) if kind == 'cwmm' else float([0.4, 0.35, 0.42][i % 3]), noise=float(10.0 ** rng.uniform(-3, -2)), seed=int(rng.integers(1 << 30)),
+                        gains=False, gainmode='mixed', E=6, prehistory=True, sizes=[12, 12, 12]))
     # cBMM with a finite concentration limit and D >= 4: several small eigenvalues are clipped to the limit and tie exactly
     for i in range(6 if q else 36):
         out.append(dict(t='fp', kind='cbmm', K=2, D=[4, 5, 4][i % 3], F=1, iterations=[1, 2][i % 2], blur=float(rng.uniform(0, 0.3)),
                         noise=float(10.0 ** rng.uniform(-2, -1.3)), seed=int(rng.integers(1 << 30)), gains=False, gainmode='mixed', E=2,
                         trainer_kw=dict(max_concentration=[100.0, 50.0, 300.0][(i // 2) % 3])))
+    # single-precision complex observations in many dimensions (own-class log densities beyond the float32 exp range)
+    for i in range(4 if q else 24):
+        out.append(dict(t='fp', kind=['cacgmm', 'cwmm'][i % 2], K=3, D=[8, 7][i % 2], F=1, iterations=[1, 2, 5, 3][i % 4],
+                        blur=float([0.0, 0.4, 0.2, 0.45][i % 4]), noise=[1e-3, 2e-3][(i // 2) % 2], seed=int(rng.integers(1 << 30)),
+                        gains=bool(i % 3 == 0), gainmode='mixed', E=6, single=True))
+    # process-level state is order dependent: the cases with a small-dimension prehistory run first in the driver process
+    out.sort(key=lambda c: 0 if c.get('prehistory') else 1)
     return out
 
 
@@ -76,6 +90,8 @@ def run_case(case):
         y = y * (10.0 ** rng.uniform(lo, hi, size=(F, N, 1)) * np.exp(2j * np.pi * rng.random((F, N, 1))))
     if case['gains'] and kind == 'vmfmm':
         y = y * 10.0 ** rng.uniform(-3, 3, size=(F, N, 1))
+    if case.get('single') and not real:
+        y = y.astype(np.complex64)            # single-precision observations (the whole cACG chain runs in float32)
     data = dict(y=y)
     E = case['E']
     pm = None
@@ -85,11 +101,18 @@ def run_case(case):
         data['emb'] = emb
     onehot = np.moveaxis(np.eye(K)[lab], -1, -2)
     init = (1 - case['blur']) * onehot + case['blur'] / K
-    fp = f't=fp;model={kind};it={case["iterations"]};gains={case["gains"]};gainmode={case.get("gainmode")}'
+    fp = f't=fp;model={kind};it={case["iterations"]};gains={case["gains"]};gainmode={case.get("gainmode")}' + (';single' if case.get('single') else '')
     key = f'fp:{case["seed"]}'
     tkw = case.get('trainer_kw') or {}
     if tkw:
         fp += f';trainer={tkw}'
+    if case.get('prehistory'):
+        # process history: ANOTHER trainer of the same class has been used with a smaller feature dimension before
+        r0 = np.random.default_rng(case['seed'] + 1)
+        L0 = [1] if integ else []
+        d0 = ml.make_data(r0, kind, L0, 2, 2, 12, regime='separable', E=2)
+        call(ml.fit, kind, d0, ml.make_init(r0, L0, 2, 12), 2, {}, ml.trainer_for(kind))
+        fp += ';prehistory'
     trainer = ml.trainer_for(kind, **tkw)
     if case['seed'] % 2:
         # history: the same trainer object has completed another fit (several iterations, blurred start) before
@@ -107,7 +130,8 @@ def run_case(case):
                protos=flatz(p) if not real else flat(p), pcplx=not real, fields=fields,
                mean_kind='gaussian' if kind in ('gmm', 'gcacgmm') else ('vmf' if kind in ('vmfmm', 'vmfcacgmm') else 'none'),
                mleads=[[f] for f in range(F)] if not integ else [[]], mprotos=flat(p if not integ else pm) if (real or integ) else dict(shape=[], data=[]),
-               z=dict(shape=[F, N, D], data=[]), strict=bool(case['iterations'] >= 5 or case['blur'] <= 0.02), fp=fp, key=key)
+               z=dict(shape=[F, N, D], data=[]), strict=bool(case['iterations'] >= 5 or case['blur'] <= 0.02),
+               dstrict=bool(case['iterations'] >= 5 or case['blur'] <= 0.45), fp=fp, key=key)
     if integ:
         # the spectral prototypes have no leading axis: index mprotos by <<k, a>> only
         rec['mleads'] = [[]]
